@@ -15,7 +15,7 @@ def dipdeg(d):
 
 def href(form, d):
     c, s = float(d[0]), float(d[1])
-    return {"c0s": [c, 0, s], "c0-s": [c, 0, -s], "s0c": [s, 0, c], "0c-s": [0, c, -s], "0cs": [0, c, s]}[form]
+    return {"c0s": [c, 0, s], "c0-s": [c, 0, -s], "s0c": [s, 0, c], "0c-s": [0, c, -s], "0cs": [0, c, s], "decl": [3 * c, 4 * c, 5 * s]}[form]
 
 
 def unitv(v):
@@ -55,15 +55,21 @@ for _m, _cls in (("eig", "free"), ("symbolic", "closed"), ("newton", "closed")):
 route("OLEQ(NED).Q", DN, "s0c", "B", "closed", 1e-6)(lambda a, m, d: F.OLEQ(a, m, magnetic_ref=float(dipdeg(d)), frame="NED").Q)
 route("OLEQ(ENU).Q", UP, "0c-s", "B", "closed", 1e-6)(lambda a, m, d: F.OLEQ(a, m, magnetic_ref=float(dipdeg(d)), frame="ENU").Q)
 route("OLEQ(NED).estimate", DN, "s0c", "B", "closed", 1e-6)(lambda a, m, d: F.OLEQ(magnetic_ref=float(dipdeg(d)), frame="NED").estimate(a, m))
-# ---- SAAM, FAMC, FQA
+# ---- SAAM, FAMC, FQA (FQA recovers half angles as sqrt((1 -+ cos)/2): half the digits are lost near cos = +-1 => 1e-7)
 route("SAAM().Q", UP, "c0s", "A", "closed")(lambda a, m, d: F.SAAM(a, m).Q)
 route("SAAM.estimate", UP, "c0s", "A", "closed")(lambda a, m, d: F.SAAM().estimate(a, m))
 route("SAAM(N).Q", UP, "c0s", "A", "closed")(lambda a, m, d: F.SAAM(np.array([a, a]), np.array([m, m])).Q[0])
 route("SAAM(rotmat).A", UP, "c0s", "A", "closed")(lambda a, m, d: F.SAAM(a, m, representation="rotmat").A)
 route("FAMC().Q", UP, "c0s", "B", "closed")(lambda a, m, d: F.FAMC(a, m).Q)
 route("FAMC.estimate", UP, "c0s", "B", "closed")(lambda a, m, d: F.FAMC().estimate(a, m))
-route("FQA(mag_ref).Q", DN, "c0s", "B", "closed")(lambda a, m, d: F.FQA(a, m, mag_ref=np.array(href("c0s", d), dtype=float)).Q)
-route("FQA.estimate", DN, "c0s", "B", "closed")(lambda a, m, d: F.FQA(mag_ref=np.array(href("c0s", d), dtype=float)).estimate(a, m))
+route("FQA(mag_ref).Q", DN, "c0s", "B", "closed", 1e-7)(lambda a, m, d: F.FQA(a, m, mag_ref=np.array(href("c0s", d), dtype=float)).Q)
+route("FQA.estimate", DN, "c0s", "B", "closed", 1e-7)(lambda a, m, d: F.FQA(mag_ref=np.array(href("c0s", d), dtype=float)).estimate(a, m))
+# ---- the same estimators with a magnetic reference that has an East component
+route("TRIAD(v2=decl).A", UP, "decl", "A", "free")(lambda a, m, d: F.TRIAD(a, m, v1=np.array([0.0, 0, 1]), v2=np.array(href("decl", d), dtype=float)).A)
+route("QUEST(magnetic_dip=vector).Q", UP, "decl", "B", "closed", 1e-7)(lambda a, m, d: F.QUEST(a, m, magnetic_dip=unitv(href("decl", d))).Q)
+route("OLEQ(NED,magnetic_ref=vector).Q", DN, "decl", "B", "closed", 1e-6)(lambda a, m, d: F.OLEQ(a, m, magnetic_ref=np.array(href("decl", d), dtype=float), frame="NED").Q)
+route("FQA(mag_ref=decl).Q", DN, "decl", "B", "closed", 1e-7)(lambda a, m, d: F.FQA(a, m, mag_ref=np.array(href("decl", d), dtype=float)).Q)
+route("FQA(mag_ref=east).estimate", DN, "0cs", "B", "closed", 1e-7)(lambda a, m, d: F.FQA(mag_ref=np.array(href("0cs", d), dtype=float)).estimate(a, m))
 # ---- Tilt (singularity-free class per the property), AQUA's algebraic fix
 route("Tilt().Q", UP, "c0s", "B", "free")(lambda a, m, d: F.Tilt(a, m).Q)
 route("Tilt(N).Q", UP, "c0s", "B", "free")(lambda a, m, d: F.Tilt(np.array([a, a]), np.array([m, m])).Q[1])
